@@ -128,6 +128,13 @@ impl LocalSpanStack {
         }
     }
 
+    /// Whether there is a current span line and it records what is added to it.
+    #[inline]
+    pub fn is_recording(&mut self) -> bool {
+        self.current_span_line()
+            .map_or(false, |span_line| span_line.is_sampled())
+    }
+
     pub fn current_collect_token(&mut self) -> Option<CollectToken> {
         let span_line = self.current_span_line()?;
         span_line.current_collect_token()
